@@ -160,7 +160,7 @@ class CobaRandom:
         else:
             tot = sum(weights)
             if tot == 0: raise ValueError("The sum of weights cannot be zero.")
-            return next(compress(seq, map((next(self._randu)*tot).__le__, accumulate(weights))))
+            return next(compress(seq, map((next(self._randu)*tot).__lt__, accumulate(weights))))
 
     def choicew(self, seq: Sequence[Any], weights:Sequence[float] = None) -> Tuple[Any,float]:
         """Choose a random item from the given sequence.
